@@ -328,7 +328,27 @@ def r4_symbolic_deriv(rule, root=None):
                     rule.bad(key + "|shape", "deriv arm for %s not understood (%s)" % (variant, e), A.where(fn, arm))
                 continue
             if variant == "Mod":
-                rule.skip("deriv(Mod)", "div_euclid emulation through floor/modulo/if_nonzero_else is outside the closed-form model")
+                # rem_euclid(f, g) = f - g * div_euclid(f, g); away from the jumps d = df - dg * div_euclid(f, g).
+                # The arm builds div_euclid from floor/ceil/compare nodes: piecewise in the signs of the
+                # operands, so enumerate sign x magnitude classes with non-integer quotients.
+                import math
+
+                bad = None
+                n_cases = 0
+                try:
+                    for a, b in itertools.product((-7.25, -1.5, 1.5, 7.25), (-2.0, -1.0, 1.0, 2.0)):
+                        got = _float_arm(arm, {"v_lhs": a, "v_rhs": b, "d_lhs": 5.0, "d_rhs": 7.0}, root)
+                        q = math.floor(a / b) if b > 0 else math.ceil(a / b)
+                        want = 5.0 - 7.0 * q
+                        n_cases += 1
+                        if got != want and bad is None:
+                            bad = ((a, b), got, want, q)
+                    if bad:
+                        rule.bad(key, "deriv(Mod): for (lhs, rhs) = %s the built derivative is d_lhs - d_rhs * %g, but div_euclid(lhs, rhs) = %g (what Grad::rem_euclid uses)" % (bad[0], (5.0 - bad[1]) / 7.0, bad[3]), A.where(fn, arm))
+                    else:
+                        rule.ok("deriv(Mod) = d_lhs - d_rhs * div_euclid(lhs, rhs) on %d sign/magnitude classes" % n_cases, file=CTX, line=arm["ln"])
+                except (ValueError, KeyError, AttributeError, TypeError) as e:
+                    rule.bad(key + "|model", "deriv arm for Mod does not fit the float model (%s)" % e, A.where(fn, arm))
                 continue
             # piecewise: enumerate the orderings with the float model of the builder DSL
             cases = []
